@@ -269,6 +269,9 @@ def run(ck):
             side = "reference" if "Reference" in elt[1] else "query"
             bv = [x for x in T.subterms(elt) if x[0] == "bv"][0]
             cond = ifs[0]
+            if cond[0] == "notin" and cond[2][0] == "comp" and cond[2][2][0] == "app":
+                from ..rules.common import expand_simple_apps
+                cond = expand_simple_apps(ck, cond)          # label numbers taken through a selector function
             okc = cond[0] == "notin" and cond[1] == T.mk_attr(bv, "siteId") and cond[2][0] == "comp" and \
                 cond[2][3][0][0] == V(uD) and cond[2][2] == T.mk_attr(T.mk_attr(cond[2][2][1][1], side), "siteId") \
                 if cond[0] == "notin" and cond[2][0] == "comp" and cond[2][2][0] == "attr" and cond[2][2][1][0] == "attr" else False
